@@ -164,6 +164,10 @@ class Harness:
                                              main_file="answer.py", main_code=self.src))
         self.sandbox = self.report["sandbox"]["sandbox"]
         self.sandbox.allowed_time = 5
+        # the guard against endless input loops is per EXECUTION: set just above what any single program here reads, it
+        # must never fire, however many executions the history has
+        progs = [file["top"]] + list(file.get("fns", []))
+        self.sandbox.MAXIMUM_INPUTS = max(len(pr["effs"]) for pr in progs) + 1
         # half of the files are graded with the HTML formatter on the report (what the web environments install):
         # describing a failure must not depend on it
         import os as _os
